@@ -98,6 +98,7 @@ package logdb
 //@ ghost var gIOFailed bool
 
 //@ extern github.com/lni/dragonboat/v4/internal/logdb/kv (s IKVStore) IterateValue
+//@ modifies captured(op)
 //@ ghostset gIOFailed := old(gIOFailed) || result != nil
 //@ extern github.com/lni/dragonboat/v4/internal/logdb/kv (s IKVStore) GetValue
 //@ modifies captured(op)
@@ -285,3 +286,60 @@ package logdb
 //@ ensures result == nil ==> gBatchCommits == old(gBatchCommits) + 1
 //@ ensures gIOFailed && !old(gIOFailed) ==> result != nil
 //@ loop 1 invariant gIOFailed == old(gIOFailed) && gRecSnapshot == 0 && gRecBootstrap == 0 && gRecState == 0 && gRecMaxIndex == 0 && gBatchCommits == old(gBatchCommits) && r.kvs != nil
+
+// ---------------------------------------------------------------- reading entries back: plain format (C09)
+// From the property: the entries returned for a range are contiguous from its lower bound
+// (never a gap, never a stale entry in between). The scan callback appends a record only if
+// it carries the next expected index; this is its callback invariant.
+//@ func (pe *plainEntries) iterate$1 [C09]
+//@ noframe
+//@ nobounds
+//@ requires *expectedIndex < MaxUint64
+//@ invariant outer(old(len(ents))) >= 0 && *expectedIndex >= outer(low) && len(*ents) == outer(old(len(ents))) + (*expectedIndex - outer(low))
+//@ invariant forall i int :: outer(old(len(ents))) <= i && i < len(*ents) ==> (*ents)[i].Index == outer(low) + (i - outer(old(len(ents))))
+
+//@ func (pe *plainEntries) getEntry [C09]
+//@ trusted reads the record stored under the key of (shard, replica, index); that it holds the entry with that index is the store's contract
+//@ modifies gIOFailed
+//@ ensures result1 == nil ==> result0.Index == index
+//@ ensures gIOFailed && !old(gIOFailed) ==> result1 != nil
+
+//@ func (pe *plainEntries) iterate [C09 C10]
+//@ noframe
+//@ nobounds
+//@ requires pe.kvs != nil && pe.keys != nil
+//@ modifies gIOFailed
+//@ ensures result2 == nil ==> len(result0) >= len(old(ents)) && (forall i int :: len(old(ents)) <= i && i < len(result0) ==> result0[i].Index == low + (i - len(old(ents))))
+//@ ensures gIOFailed && !old(gIOFailed) ==> result2 != nil
+
+// decoding fills the message it is given (and nothing else)
+//@ extern github.com/lni/dragonboat/v4/raftpb MustUnmarshal
+//@ modifies pointee(m)
+
+// ---------------------------------------------------------------- reading entries back: batched format (C09)
+// From the property: contiguous from the lower bound, never past the logical end (maxIndex),
+// never a gap.
+//@ func entriesSize [C09]
+//@ trusted sums the size upper limits (arithmetic only)
+//@ func getBatchIDRange [C09]
+//@ trusted batch id arithmetic (division by the symbolic batch size)
+
+//@ func (be *batchedEntries) iterateBatches [C09 C10]
+//@ noframe
+//@ nobounds
+//@ requires be.kvs != nil && be.keys != nil
+//@ modifies gIOFailed
+//@ ensures gIOFailed && !old(gIOFailed) ==> result1 != nil
+
+//@ func (be *batchedEntries) iterate [C09 C10]
+//@ noframe
+//@ nobounds
+//@ requires be.kvs != nil && be.keys != nil && maxIndex < MaxUint64
+//@ modifies gIOFailed
+//@ ensures result2 == nil ==> len(result0) >= len(old(ents)) && (forall i int :: len(old(ents)) <= i && i < len(result0) ==>
+//@    result0[i].Index == old(low) + (i - len(old(ents))) && result0[i].Index <= maxIndex && result0[i].Index < old(high))
+//@ ensures gIOFailed && !old(gIOFailed) ==> result2 != nil
+//@ loop 1 invariant (gIOFailed ==> old(gIOFailed)) && high <= maxIndex + 1 && high <= old(high) && exp >= low && len(ents) == len(old(ents)) + (exp - low)
+//@ loop 1 invariant forall i int :: len(old(ents)) <= i && i < len(ents) ==> ents[i].Index == low + (i - len(old(ents))) && ents[i].Index < high
+//@ loop 2 invariant (gIOFailed ==> old(gIOFailed)) && high <= maxIndex + 1 && high <= old(high) && exp >= low && len(ents) == len(old(ents)) + (exp - low)
+//@ loop 2 invariant forall i int :: len(old(ents)) <= i && i < len(ents) ==> ents[i].Index == low + (i - len(old(ents))) && ents[i].Index < high
